@@ -68,6 +68,11 @@ type Point struct {
 	Sig            uint64
 }
 
+// UnlockPoints makes Mutex.Unlock a scheduling point. The instrumenter turns it on (in an init
+// function of the instrumented file) when the code under test calls TryLock / TryRLock: only then
+// can "another thread is inside a critical section" be observed without blocking.
+var UnlockPoints bool
+
 type Opts struct {
 	StepBudget int
 	Trace      bool
